@@ -76,10 +76,16 @@ class C13(Prop):
             'the slave), while offline 1-6 edits through the master API (port attributes incl. enabled/expression/'
             'custom, port values incl. repeated writes, device attributes, webhooks/reverse parameters), remote '
             'changes on the slave before/during/after the outage (value changes, attribute updates, port add/remove, '
-            'device updates), checks before/after. A case is non-trivial when an outage with at least one accepted '
+            'device updates), checks before/after. About one case in seven is a webhook-driven slave (mode push: neither '
+            'listened to nor polled, the device POSTs its events to the real /devices/<name>/events function): outage, '
+            '1-5 port value writes / port attribute edits (sometimes device-level edits) through the master, 0-3 master '
+            'restarts at arbitrary points between and after the edits (the ports of such a slave are rebuilt from the '
+            'persisted records), then the device shows up (it reports a change of its own), checks. A case is non-trivial when an outage with at least one accepted '
             'offline edit was followed by a reconnect whose pushes were observed; distinct = distinct (mode, kinds '
             'of pending edits, kinds of events replayed before provisioning, pushes seen).')
-    CORRESPONDENCE = ('Slave.handleEvents/handleOnline/applyProvisioning/pollOnce/editAttr/editValue/editDev/drain <-> '
+    CORRESPONDENCE = ('Slave.restartPermOffline/loadPort/provisionAndUpdate <-> slaves.devices.load/Slave.enable/_load_ports/'
+                      '_provision_and_update, slaves.ports.SlavePort.prepare_for_save/load_from_data (webhook-driven slaves); '
+                      'Slave.handleEvents/handleOnline/applyProvisioning/pollOnce/editAttr/editValue/editDev/drain <-> '
                       'slaves.devices.Slave._listen_loop/_handle_online/apply_provisioning/_poll_once/intercept_request, '
                       'slaves.ports.SlavePort.set_attr/write_value/read_value')
     TRUSTED = ['the simulated slave (harness/simslave_c12.py) as a correct qToggle device; tornado HTTP client replaced '
@@ -88,15 +94,25 @@ class C13(Prop):
                'arithmetic and the moment the master declares the slave offline are not modelled']
     ASSUMPTIONS = ['the slave stays reachable while the master pushes the pending data (an outage during the push '
                    'itself loses the edit: apply_provisioning clears the pending sets whatever the outcome)',
-                   'master restarts are generated only while device-level edits (device attributes, webhooks, reverse) '
-                   'are pending: a restart while PORT edits are pending loses them (known finding C13-restart-port-edits)',
+                   'for LISTENING / POLLING slaves master restarts are generated only while device-level edits (device '
+                   'attributes, webhooks, reverse) are pending: there a restart while PORT edits are pending loses them '
+                   '(known finding C13-restart-port-edits, matched for these two modes only); for webhook-driven slaves '
+                   '(mode push) restarts are generated while port edits are pending and everything must survive',
+                   'a master restart of a webhook-driven slave is a model step (restartPermOffline, the record taken from '
+                   'the port state at the restart: every operation that changes it saves the port); between such a restart '
+                   'and the next completed refresh model and code are compared on what is pending only (names, the '
+                   "user's attribute values, the pending value). For a listening / polling slave the model replay stops at "
+                   'a restart (what survives there is not modelled); the oracle goes on',
                    'request latency below the request timeouts',
                    'the hub has read out every remote value it received before the user writes a value for an offline '
                    'slave (generated value changes are far slower than one per 50 ms tick for 15 s): a write over an unread '
                    'backlog is replaced by a queued slave value (known finding C13-offline-write-over-unread-queue)']
 
     def setup(self):
+        import warnings
         from harness.simslave_c12 import Hub
+        # schedule_provisioning_and_update cancels the not-yet-started task of the previous event of a webhook-driven slave
+        warnings.filterwarnings('ignore', message='coroutine .* was never awaited', category=RuntimeWarning)
         self.hub = Hub(quiet=True)
 
     def teardown(self):
@@ -158,6 +174,27 @@ class C13(Prop):
         out.append({'mode': 'listen', 'latency': 0.01, 'fail': 'refused', 'poll': 2, 'ports': one, 'steps': [
             ['down'], ['await_offline'], ['mattr', 'p1', 'display_name', 'edited'], ['mvalue', 'p1', 42], ['wait', 3],
             ['restart'], ['wait', 5], ['up'], ['await_online'], ['check']]})
+        # webhook-driven slave (neither listened to nor polled): its ports ARE rebuilt from the persisted records at start-up.
+        # Port value writes and attribute edits while it is away, master restart(s), then the device shows up: everything
+        # pushed once with the user's values (seeded change C13-r4-3 = the regression of 6d69e21 repaired by 8847295:
+        # the pending VALUE was not restored on load; Lean: pending_port_edits_survive_restart_permanently_offline,
+        # unrepaired_pending_value_lost_on_restart)
+        four = [{'id': 'p1', 'type': 'number', 'value': 10, 'writable': True, 'enabled': True},
+                {'id': 'p2', 'type': 'boolean', 'value': False, 'writable': True, 'enabled': True},
+                {'id': 'p3', 'type': 'number', 'value': 5, 'writable': True, 'enabled': True},
+                {'id': 'p4', 'type': 'number', 'value': 7, 'writable': True, 'enabled': True}]
+        for restarts, lat in ((1, 0.01), (2, 0.1), (0, 0.01)):
+            out.append({'mode': 'push', 'latency': lat, 'push_latency': 0.01, 'fail': 'refused', 'poll': 1, 'ports': four,
+                        'steps': [['check'], ['down'], ['await_offline'], ['mattr', 'p1', 'display_name', 'Pump'],
+                                  ['mvalue', 'p1', 42], ['mvalue', 'p2', True], ['mattr', 'p3', 'unit', 'C']] +
+                                 [['restart'], ['wait', 3], ['check']] * restarts +
+                                 [['up'], ['announce'], ['await_online'], ['check']]})
+        # … a restart between two writes of the same port, one right after the device became reachable again, one after
+        # everything has been pushed (nothing may be pending, or pushed, again)
+        out.append({'mode': 'push', 'latency': 0.03, 'push_latency': 0.001, 'fail': 'timeout', 'poll': 1, 'ports': four[:2],
+                    'steps': [['down'], ['await_offline'], ['mvalue', 'p1', 41], ['restart'], ['mvalue', 'p1', 42],
+                              ['mdev', 'display_name', 'Hall'], ['wait', 30], ['up'], ['restart'], ['wait', 1],
+                              ['announce'], ['await_online'], ['check'], ['restart'], ['wait', 2], ['check']]})
         # KNOWN FINDING C13-offline-write-over-unread-queue (Lean: unrepaired_offline_write_over_unread_queue_is_lost): 401 remote
         # values in one listen batch, outage, the user writes 42 while ~90 of them are still unread: the next ticks read
         # them INTO the value kept for the push; the reconnect pushes the slave's own 7 instead of 42
@@ -227,6 +264,8 @@ class C13(Prop):
                                   rng.choice([True, 7, 20])])
 
         special = rng.random()
+        if 0.12 <= special < 0.27:
+            return self.gen_webhook_slave(rng, case, steps, ids, rnd_value)
         if special < 0.12:
             # master restarts (device-level edits only: see ASSUMPTIONS) at arbitrary points of an outage, optionally
             # with a flapping link: pushes acknowledged, refresh cut, restart during the following outage
@@ -283,6 +322,59 @@ class C13(Prop):
         case['steps'] = steps
         return case
 
+    @staticmethod
+    def gen_webhook_slave(rng, case, steps, ids, rnd_value):
+        """A webhook-driven slave (neither listened to nor polled; SlavePort.load_from_data rebuilds its ports from the
+        persisted records at start-up): port edits while the device is away, master restarts at arbitrary points, then
+        the device shows up."""
+        case['mode'] = 'push'
+        case['push_latency'] = rng.choice([case['latency'], case['latency'] / 4, 0.001])
+        if rng.random() < 0.5:
+            steps.append(['check'])
+        for _ in range(rng.choice([1, 1, 1, 2])):
+            steps += [['down'], ['await_offline']]
+            seq = ['E'] * rng.randint(1, 5) + ['S'] * rng.choice([0, 1, 1, 1, 2, 3]) + ['R'] * rng.choice([0, 0, 1])
+            rng.shuffle(seq)
+            for x in seq:
+                if x == 'S':
+                    steps.append(['restart'])
+                    if rng.random() < 0.6:
+                        steps.append(['wait', rng.choice([0.01, 0.3, 3, 40])])
+                    if rng.random() < 0.35:
+                        steps.append(['check'])       # model vs code on what is pending right after the restart
+                elif x == 'R':
+                    pid = rng.choice(ids)
+                    if rng.random() < 0.6:
+                        steps.append(['rvalue', pid, rnd_value(pid)])
+                    else:
+                        n, vals = rng.choice(ATTR_EDITS[:2])
+                        steps.append(['rattr', pid, n, rng.choice(vals)])
+                else:
+                    r = rng.random()
+                    pid = rng.choice(ids)
+                    if r < 0.45:
+                        steps.append(['mvalue', pid, rnd_value(pid)])
+                    elif r < 0.85:
+                        n, vals = rng.choice(ATTR_EDITS)
+                        steps.append(['mattr', pid, n, rng.choice(vals)])
+                    elif r < 0.93:
+                        n, vals = rng.choice(DEV_EDITS[:2])
+                        steps.append(['mdev', n, rng.choice(vals)])
+                    else:
+                        steps.append([rng.choice(['mwebhooks', 'mreverse']), rng.choice(['enabled', 'timeout']),
+                                      rng.choice([True, 7, 20])])
+                    if rng.random() < 0.2:
+                        steps.append(['wait', rng.choice([0.01, 0.2, 1])])
+            steps.append(['wait', rng.choice([1, 5, 60, 250])])
+            steps.append(['up'])
+            if rng.random() < 0.25:
+                steps += [['restart'], ['wait', rng.choice([0.5, 2])]]    # reachable again, but it has not shown up yet
+            steps += [['announce'], ['await_online'], ['check']]
+            if rng.random() < 0.4:
+                steps += [['restart'], ['wait', 2], ['check']]            # everything pushed: nothing pending again
+        case['steps'] = steps
+        return case
+
     def shrink_candidates(self, case):
         steps = case['steps']
         keep = ('down', 'await_offline', 'up', 'await_online')
@@ -326,11 +418,16 @@ class C13(Prop):
                 return False
             ports = backlog_written_ports(case)
             return any(f' of {p} ' in failure.detail for p in ports)
-        # C13-restart-port-edits: a master restart between an accepted offline PORT edit and the reconnect; the edit is
-        # then never pushed and stays reported as pending
+        # C13-restart-port-edits: LISTENING / POLLING slave, a master restart between an accepted offline PORT edit and
+        # the reconnect; the edit is then never pushed and stays reported as pending
         if finding.get('id') != 'C13-restart-port-edits' or failure.kind != 'property':
             return False
         if failure.where not in ('pushed-once', 'value-pushed-once', 'nothing-pending'):
+            return False
+        # the finding is about slaves the master connects to (listening / polling): their ports are re-created only by
+        # the refresh, after provisioning ran over an empty port list. The ports of a webhook-driven slave (mode push)
+        # are rebuilt from the persisted records at start-up: a failure there is NOT this finding
+        if case.get('mode') not in ('listen', 'poll'):
             return False
         down = pending = False
         for st in case['steps']:
